@@ -31,7 +31,7 @@ namespace verif
     }
     void use(aligned& al, tracked& tr, segr& sg, fallback& fb, locked& lk, refst& rs, stdalloc& sa, stdalloc& sb, void* p, std::size_t n, raw_alloc& ra)
     {
-        use_raw(al, p, n); use_comp(al, p, n);
+        use_raw(al, p, n); use_comp(al, p, n); { aligned al2(static_cast<aligned&&>(al)); al = static_cast<aligned&&>(al2); }
         use_raw(tr, p, n); use_comp(tr, p, n);
         sg.allocate_node(n, n); sg.allocate_array(n, n, n); sg.deallocate_node(p, n, n); sg.deallocate_array(p, n, n, n); sg.max_node_size(); sg.max_array_size();
         use_raw(fb, p, n); use_comp(fb, p, n);
